@@ -71,9 +71,11 @@ def shape_failures(spec, steps, probes, rs_seed=0):
             return ["target atom %d has no valid anchor (%s)" % (k, per[k])]
     bad = []
     for i, c in enumerate(res["calls"]):
-        bad += _call_failures(spec, nb, per, c["pos"], c["out"], "call %d of the sequence (%s)" % (i, c["how"]))
+        # judged on the HELD result, read at the end of the sequence
+        bad += _call_failures(spec, nb, per, c["pos"], c["out_end"], "call %d of the sequence (%s)" % (i, c["how"]))
     if not np.array_equal(res["tgt_after"], tgt):
         bad.append("the target molecule passed to the constructor was modified by the calls")
+    bad = res["held_problems"][:3] + bad
     if bad or not probes:
         return bad[:5]
     # locality: displace one reference atom at a time, call the same map again
@@ -100,6 +102,10 @@ def shape_failures(spec, steps, probes, rs_seed=0):
             if not dev <= TOL_LOCAL:
                 bad.append("mapped atom %d (anchor %d, frame neighbours %d,%d) moved by %.3g when reference atom %d was displaced %s" % (
                     k, a, nb[a][0], nb[a][1], dev, j, how))
+    # the result of the last call of the sequence is still held: the probe calls must not have touched it
+    still = np.array(res["held"][-1].atoms_positions, dtype=float)
+    if still.shape != out.shape or not np.array_equal(still, out):
+        bad.append("the molecule returned by the last call of the sequence (held by the caller) was moved by later calls")
     return bad[:5]
 
 
